@@ -151,6 +151,7 @@ def _variant(d, i):
     (complex data: all NFFT bins are returned) or a narrow integer dtype at ADC amplitude (real data)."""
     if i % 5 == 3:
         d['variant'] = 'zimag' if d['cplx'] else gen.NARROW[(i // 5) % len(gen.NARROW)]
+    gen.layout_variant(d, i)
 
 
 def cases(c):
